@@ -10,7 +10,7 @@ import sympy.physics.units as u
 from sympy.physics.units.systems.si import dimsys_SI
 from sympy.physics.units.systems import SI
 from sympy.physics.units import UnitSystem, Quantity
-from sympy import S, __version__ as sympy_version
+from sympy import S, Expr, __version__ as sympy_version
 
 
 dB = Quantity('dB', 'dB')
@@ -64,6 +64,11 @@ class Units(object):
 
         key = self._makekey(unit)
         if not key in self._mapping:
+            # There is no named unit with this dimension.  Express
+            # Hz as 1 / s so that equivalent units, say Hz * ohm and
+            # ohm / s, have the same canonical form.
+            if isinstance(unit, Expr) and unit.has(u.Hz):
+                unit = unit.subs(u.Hz, 1 / u.s)
             return unit
         result = self._mapping[key]
 
